@@ -97,6 +97,10 @@ impl<T> Matrix<T> {
         if m >= self.major() || n >= self.major() {
             return Err(Error::IndexOutOfBounds);
         }
+        if m == n {
+            // `ptr::swap_nonoverlapping` must not be called on overlapping ranges
+            return Ok(self);
+        }
         let base = self.data.as_mut_ptr();
         let index = m * self.major_stride();
         let jndex = n * self.major_stride();
